@@ -11,8 +11,12 @@ import (
 // VerifC11YAMLBytes: every byte string up to the length bound over a YAML alphabet goes through the real yaml.v3
 // scanner/parser and yq's decoder (leading-content pre-processing, node conversion): documents or an error, never a
 // crash or a hang.
+// yamlAlphabets: the byte sets the YAML harnesses draw their texts from (one per path): block structure with
+// comments, anchors and aliases; flow collections and quoting; block scalars, tags, directives and tabs.
+var yamlAlphabets = []string{"aa::  --\n\n[[]]##&&**", "aa::  \n\n{{}},,\"\"''", "aa::  \n\n||>>!!%%\t\t??"}
+
 func VerifC11YAMLBytes() {
-	text := verifStr("text", verifParam("yamllen", 3), "aa::  --\n\n[[]]##&&**")
+	text := verifStr("text", verifParam("yamllen", 3), yamlAlphabets[verifChoice("alphabet", len(yamlAlphabets))])
 	dec := NewYamlDecoder(NewDefaultYamlPreferences())
 	err := dec.Init(strings.NewReader(text))
 	docs := 0
@@ -36,7 +40,7 @@ func VerifC11YAMLBytes() {
 // where the input is accepted, the output is accepted too, holds the same number of documents with the same data,
 // and a second pass reproduces the output byte for byte.
 func VerifC05IdentityBytes() {
-	text := verifStr("text", verifParam("yamllen", 3), "aa::  --\n\n[[]]##&&**")
+	text := verifStr("text", verifParam("yamllen", 3), yamlAlphabets[verifChoice("alphabet", len(yamlAlphabets))])
 	out1, ok1 := c05IdentityStrict(text)
 	if !ok1 {
 		verifCover("C05/identity-bytes/rejected")
